@@ -74,6 +74,28 @@ fn distinct(r: &mut Rng, n: usize, k: usize) -> Vec<usize> {
     qs
 }
 
+/// An explicit measurement outcome: a new variable, on its own (60%) or XORed with one or two
+/// of the variables already in use (the outcome parity of a gate may be any parity).
+fn explicit_outcome(r: &mut Rng, var_next: &mut u32) -> Vec<u32> {
+    let mut v = vec![*var_next];
+    if *var_next > 0 {
+        let extra = match r.below(10) {
+            0..=5 => 0,
+            6..=8 => 1,
+            _ => 2,
+        };
+        for _ in 0..extra {
+            let x = r.below(*var_next as usize) as u32;
+            if !v.contains(&x) {
+                v.push(x);
+            }
+        }
+    }
+    *var_next += 1;
+    v.sort();
+    v
+}
+
 pub fn gen_circuit(r: &mut Rng, p: &CircParams) -> Circ {
     let n = p.min_qubits + r.below(p.max_qubits - p.min_qubits + 1);
     let depth = if r.chance(0.03) { 0 } else { r.below(p.max_depth + 1) };
@@ -195,13 +217,7 @@ pub fn gen_circuit(r: &mut Rng, p: &CircParams) -> Circ {
         // mid-circuit measure-reset
         if p.measure && r.chance(0.08) && na > 0 {
             let q = avail[r.below(na)];
-            let vars = if r.chance(0.5) {
-                vec![]
-            } else {
-                let v = vec![var_next];
-                var_next += 1;
-                v
-            };
+            let vars = if r.chance(0.5) { vec![] } else { explicit_outcome(r, &mut var_next) };
             gates.push(G::MeasureR(q, vars));
         }
     }
@@ -209,13 +225,7 @@ pub fn gen_circuit(r: &mut Rng, p: &CircParams) -> Circ {
         if kind == 0 {
             gates.push(G::PostSel(q));
         } else {
-            let vars = if r.chance(0.5) {
-                vec![]
-            } else {
-                let v = vec![var_next];
-                var_next += 1;
-                v
-            };
+            let vars = if r.chance(0.5) { vec![] } else { explicit_outcome(r, &mut var_next) };
             gates.push(G::MeasureD(q, vars));
         }
     }
